@@ -159,6 +159,16 @@ def _body_cases():
                 yield {"labels": [f"body={bk}", f"media={media}", f"method={method}"],
                        "payload": {"doc": _doc(p, item, comps), "options": {}, "method": method, "path": "/b", "params": [],
                                    "bodies": [{"media": media, "kind": bk, "instances": insts}], "key": f"body/{bk}/{media}"}}
+    # a JSON body that is not an object next to a second media type (the argument's Python type selects the encoding)
+    for jkind, jschema, jinst in (("array_int", {"type": "array", "items": {"type": "integer"}}, [1, 2]), ("str", {"type": "string"}, "hello"),
+                                  ("array_model", {"type": "array", "items": copy.deepcopy(OBJ_SCHEMA)}, [{"a": "x"}])):
+        content = {"application/json": {"schema": jschema}, "application/x-www-form-urlencoded": {"schema": copy.deepcopy(OBJ_SCHEMA)}}
+        p, item = _op(method="post", path="/b", body={"required": True, "content": content})
+        yield {"labels": [f"body={jkind}", "media=application/json", "media2=application/x-www-form-urlencoded"],
+               "payload": {"doc": _doc(p, item, {}), "options": {}, "method": "post", "path": "/b", "params": [],
+                           "bodies": [{"media": "application/json", "kind": jkind, "instances": [jinst]},
+                                      {"media": "application/x-www-form-urlencoded", "kind": "inline_object", "instances": OBJ_INSTANCES[:1]}],
+                           "key": f"body2/json:{jkind}+form"}}
     # two media types at once: the argument's type selects the encoding
     for m1, m2 in (("application/json", "multipart/form-data"), ("application/json", "application/x-www-form-urlencoded"),
                    ("application/x-www-form-urlencoded", "multipart/form-data"), ("application/json", "application/octet-stream")):
